@@ -10,10 +10,8 @@ package keeper
 //@ import ethparams "github.com/ethereum/go-ethereum/params"
 //@ import storetypes "cosmossdk.io/store/types"
 
-// Abstract fee-market state per store layer (DESIGN.md §4): the stored Params record.
-//@ ghost var fmBaseFee map[int]int
-//@ ghost var fmBaseFeeNil map[int]bool
-//@ ghost var fmMinGasPrice map[int]int
+// Abstract fee-market state per store layer (fmBaseFee, fmBaseFeeNil, fmMinGasPrice): declared in /verif/prelude/00_world.spec
+// because other modules' contracts read it too.
 
 // gas limit of the current block as CalculateBaseFee reads it from the consensus params
 //@ ghost func fmGasLimit(hasBlock bool, maxGas int) int = (hasBlock && maxGas > -1) ? maxGas : pow2(64) - 1
